@@ -89,6 +89,8 @@ type scenario struct {
 	UTCViaOpt  bool
 	LayoutSet  bool
 	LayoutArgs []string
+	// EmptyFirst: SetTimeFormat() (1) or SetTimeFormat("") (2) is called before the call that gives the layout
+	EmptyFirst int
 	// Neighbour: a record this far from the instant is printed first (0: none)
 	Neighbour time.Duration
 	Via        string // thru | adapter
@@ -170,6 +172,12 @@ func run(t vlib.TB, sc scenario) {
 	}
 	layout := ""
 	if sc.LayoutSet {
+		switch sc.EmptyFirst {
+		case 1:
+			lg.SetTimeFormat() // which layout this selects is open - the zone rules are not, and the next call gives a layout
+		case 2:
+			lg.SetTimeFormat("")
+		}
 		lg.SetTimeFormat(sc.LayoutArgs...)
 		layout = time.RFC3339Nano // documented default of SetTimeFormat()
 		for _, l := range sc.LayoutArgs {
@@ -297,8 +305,8 @@ func run(t vlib.TB, sc scenario) {
 		}
 		got = txt[:i]
 	}
-	desc := fmt.Sprintf("format=%s via=%s flags{date/time/us=%#x localTime=%v} utcCalls=%v(viaOpt=%v => mode %d) layoutSet=%v%q instant=%s (zone %s) neighbour-printed-first=%v",
-		sc.Format, sc.Via, int64(sc.DateFlags), sc.LocalTime, sc.UTCCalls, sc.UTCViaOpt, mode, sc.LayoutSet, sc.LayoutArgs, sc.TS.Format(time.RFC3339Nano), sc.TS.Location(), sc.Neighbour)
+	desc := fmt.Sprintf("format=%s via=%s flags{date/time/us=%#x localTime=%v} utcCalls=%v(viaOpt=%v => mode %d) layoutSet=%v%q instant=%s (zone %s) neighbour-printed-first=%v SetTimeFormat-without-layout-first=%d",
+		sc.Format, sc.Via, int64(sc.DateFlags), sc.LocalTime, sc.UTCCalls, sc.UTCViaOpt, mode, sc.LayoutSet, sc.LayoutArgs, sc.TS.Format(time.RFC3339Nano), sc.TS.Location(), sc.Neighbour, sc.EmptyFirst)
 	if got != wantText {
 		vlib.Discrep(t, "C16/text", "C16 %s: timestamp is %q, want %q (layout %q, utc=%v)", desc, got, wantText, layout, useUTC)
 	}
@@ -373,6 +381,7 @@ func TestTimestamps(t *testing.T) {
 			for _, l := range sc.LayoutArgs {
 				given = given || l != ""
 			}
+			sc.EmptyFirst = rapid.SampledFrom([]int{0, 0, 0, 1, 2}).Draw(t, "setTimeFormatWithoutLayoutFirst")
 			if !given {
 				// (the nanosecond layout often: it is the one that shows a text remembered from a neighbouring instant)
 				sc.LayoutArgs = append(sc.LayoutArgs, rapid.SampledFrom(append([]string{time.RFC3339Nano, time.RFC3339Nano, time.RFC3339Nano, time.StampNano}, customLayouts...)).Draw(t, "layout"))
